@@ -870,7 +870,11 @@ class StubsStringGenerator:
         inner_indentations: str,
         already_defined_names: set[str],
     ) -> str:
-        superclass_class = self._get_class_in_package(superclass)
+        try:
+            superclass_class = self._get_class_in_package(superclass)
+        except LookupError:
+            # Internal superclasses from outside the package cannot be inlined
+            return ""
 
         # Methods
         superclass_methods_text, existing_names = self._create_class_method_string(
